@@ -643,7 +643,7 @@ def layout3(toks, rng, mode):
 NAMES = ['x', 'y', 'cnt', 'inst_1', '_v', 'A1', 'dog', 'i', 'total', 'Z9', 'o', 'arr', 'X', 'Cnt', 'a1', 'DOG']
 KLS = ['K', 'A', 'Dog', 'X_Y', 'B2']
 RELS = ['R1', 'R22', 'R3']
-NSS = ['NS', 'LOG', 'ARCH', 'T1', 'e_2']
+NSS = ['NS', 'LOG', 'ARCH', 'T1', 'e_2', 'string', 'DOT', 'Number']
 FNS = ['f', 'g', 'LogInfo', 'op', 'm_1']
 PHRASES = ["'is owned by'", "'owns'", "''", "'a.b'", "'x\ny'", "'/* no */'"]
 INTS = ['0', '1', '42', '007', '2147483648', '9007199254740993', '18446744073709551616']
@@ -657,10 +657,27 @@ def _kw_spelling(r, w):
     return r.choice([w, w, w.upper(), w.capitalize()])
 
 
+# the NAMES of the token types that are not keywords (written here from the token list of the grammar): as words they are
+# ordinary identifiers — `number`, `string`, `times`, `dot`, `comment`, `le`, `id`, ... in any letter case
+TOKEN_TYPE_WORDS = ['id', 'namespace', 'number', 'fraction', 'string', 'ticked_phrase', 'qmark', 'doubleequal', 'notequal',
+                    'lessthan', 'le', 'gt', 'ge', 'plus', 'minus', 'pipe', 'div', 'mod', 'amp', 'caret', 'times', 'colon',
+                    'comma', 'arrow', 'lsqbr', 'rsqbr', 'dot', 'doublecolon', 'lparen', 'rparen', 'semicolon', 'equal',
+                    'comment', 'sl_string', 'end_for', 'end_if', 'end_while', 'unary', 'lt', 'newline', 'error']
+_P_TOKEN_WORD = 0.05
+
+
+def _token_word(r):
+    w = r.choice(TOKEN_TYPE_WORDS)
+    return r.choice([w, w, w.upper(), w.capitalize()])
+
+
 def vn(r, pool=None):
-    """a `variable_name` / `rel_id`: from the pool, or (with probability r.kwp) a kw_as_identifier_1 keyword"""
+    """a `variable_name` / `rel_id`: from the pool, or (with probability r.kwp) a kw_as_identifier_1 keyword, or (5 %)
+    a word that spells the name of a non-keyword token type"""
     if r.random() < getattr(r, 'kwp', 0.0):
         return _kw_spelling(r, r.choice(KW1))
+    if r.random() < _P_TOKEN_WORD:
+        return _token_word(r)
     return r.choice(pool or NAMES)
 
 
@@ -668,6 +685,8 @@ def idn(r, pool=None):
     """an `identifier`: from the pool, or (with probability r.kwp) any keyword the grammar allows as identifier"""
     if r.random() < getattr(r, 'kwp', 0.0):
         return _kw_spelling(r, r.choice(KW1 + KW2 + KW3 + KW4))
+    if r.random() < _P_TOKEN_WORD:
+        return _token_word(r)
     return r.choice(pool or NAMES)
 
 
@@ -1289,6 +1308,8 @@ _EDGE_TEXTS = [
     'x = paramx;', 'x = rcvd_evt.x;', 'x = cardinalityx;', 'x = aand b;', 'x = a orb;', 'returnx;', 'return;', 'returnx = 1;',
     # strings and phrases
     'dir = "C:\\temp\\";', '::f(a: "\\", b: "\\");', 'x = "\\" + "\\"; y = "a\\";', 'x = "\\\\"; y = "\\";', "relate a to b across R1.'p\\';",
+    'total = total + number;', 'return string;', 'times = times - 1;', 'x = self.comment;', '::log(string: "x");',
+    'x = selected.dot;', 'x = Number::le; ID = id.Id[iD];', 'select many plus from instances of MINUS;',
     'x = "a"b";', 'x = "a\nb";', 'x = "";', 'x = """";', 'x = "it\'s";', "relate a to b across R1.'x''y';",
     "relate a to b across R1.'';", "relate a to b across R1.'a\nb';", 'x = ";', "x = ';", 'x = "/* c */" + "// d";',
     # characters that are not in the alphabet, form feed / vertical tab between tokens
